@@ -16,7 +16,7 @@ FIELD = [0, 1, 0x7FFFFFFF, 0x80000000, 0xFFFFFFFE, 0xFFFFFFFF]
 
 
 def gen_cases(tier, seed):
-    n = 800 if tier == "quick" else 14000
+    n = 2000 if tier == "quick" else 24000
     for i in range(n):
         yield {"kind": "rand", "op": ("list", "stat")[(i // 2) % 2], "impl": ("sync", "async")[i % 2], "seed": "%d:%d" % (seed, i)}
     for i in range(8 if tier == "quick" else 60):
